@@ -389,6 +389,65 @@ Theorem default_or_norule (d : db rval) dflt path (m : matcher rval) :
   end.
 Proof. unfold spec_find_rule. destruct (spec_lookup d path m); reflexivity. Qed.
 
+(** ** the repository on the compressed tree *)
+
+Fixpoint tree_load_rulesets (t : tree rval) (l : list (nat * list rule_def)) : tree rval :=
+  match l with
+  | [] => t
+  | (src, rs) :: r => tree_load_rulesets (fst (tree_add_ruleset t src rs)) r
+  end.
+
+Lemma tree_add_all_refines l : forall (t : tree rval) (d : db rval),
+  wfb t = true -> same_entries rval (abs t) d ->
+  match tree_add_all t l, add_all d l with
+  | Some t', Some d' => wfb t' = true /\ same_entries rval (abs t') d'
+  | None, None => True
+  | _, _ => False
+  end.
+Proof.
+  induction l as [|a r IH]; intros t d Hwf Hs; cbn [tree_add_all add_all]; [split; assumption|].
+  destruct (tree_add_refines rval same_src t (ao_expr a) (ao_val a) (ao_bt a) Hwf) as [Hk Hok].
+  unfold add_expr in *. destruct (parse_expr (ao_expr a)) as [[p ks]|].
+  - destruct (add_same_entries rval same_src (abs t) d p ks (ao_val a) (ao_bt a) Hs) as [Hk2 Hs2].
+    destruct (tree_add same_src t (ao_expr a) (ao_val a) (ao_bt a)) as [t'| | |] eqn:Et; cbn [tkind] in Hk.
+    + destruct (Hok t' eq_refl) as (Hw & d' & Hd' & Hse). rewrite Hd' in Hk2. cbn [akind] in Hk2.
+      destruct (add same_src d p ks (ao_val a) (ao_bt a)) as [d2'| |] eqn:Ed; try discriminate.
+      apply IH; [exact Hw|]. intro q. rewrite (Hse q). apply (Hs2 d' d2' Hd' eq_refl).
+    + inversion Hk as [Hk']. rewrite <- Hk' in Hk2. destruct (add same_src d p ks (ao_val a) (ao_bt a)); try discriminate. exact I.
+    + inversion Hk as [Hk']. rewrite <- Hk' in Hk2. destruct (add same_src d p ks (ao_val a) (ao_bt a)); try discriminate. exact I.
+    + discriminate.
+  - destruct (tree_add same_src t (ao_expr a) (ao_val a) (ao_bt a)); cbn [tkind akind] in Hk; try discriminate; exact I.
+Qed.
+
+Lemma tree_load_rulesets_refines l : forall (t : tree rval) (d : db rval),
+  wfb t = true -> same_entries rval (abs t) d ->
+  wfb (tree_load_rulesets t l) = true /\ same_entries rval (abs (tree_load_rulesets t l)) (load_rulesets d l).
+Proof.
+  induction l as [|[src rs] r IH]; intros t d Hwf Hs; [split; assumption|].
+  cbn [tree_load_rulesets load_rulesets]. unfold tree_add_ruleset, add_ruleset.
+  pose proof (tree_add_all_refines (ruleset_adds src rs) t d Hwf Hs) as H.
+  destruct (tree_add_all t (ruleset_adds src rs)) as [t'|]; destruct (add_all d (ruleset_adds src rs)) as [d'|];
+    cbn [fst]; try contradiction.
+  - destruct H as [Hw Hs']. apply IH; assumption.
+  - apply IH; assumption.
+Qed.
+
+(** after any sequence of rule sets, [FindRule] on the compressed tree returns the rule
+    the specification selects on what was loaded, else the default rule, else "no rule" *)
+Theorem tree_find_rule_is_spec (sets : list (nat * list rule_def)) dflt path (m : matcher rval) :
+  tree_find_rule (tree_load_rulesets empty_tree sets) dflt path m
+  = spec_find_rule (load_rulesets [] sets) dflt path m.
+Proof.
+  destruct (tree_load_rulesets_refines sets empty_tree [] eq_refl ltac:(intro r; reflexivity)) as [Hw Hs].
+  unfold tree_find_rule, spec_find_rule. f_equal.
+  rewrite (tree_find_refines rval m true _ path Hw). cbn [negb].
+  pose proof (load_rulesets_wf sets [] (wf_db_nil rval)) as (Hnd & Hne & _).
+  rewrite (find_in_perm rval m false _ (load_rulesets [] sets) path).
+  - apply find_is_spec; assumption.
+  - apply same_assoc_perm; [apply abs_NoDup; exact Hw | exact Hnd | exact Hs].
+  - apply abs_NoDup. exact Hw.
+Qed.
+
 (** * Finding C02-F1: witness, and non-vacuity of the guarded theorem *)
 
 Definition ex_str (s : string) : str := list_ascii_of_string s.
